@@ -8,9 +8,10 @@
 (*          (exact in binary floating point), as integers                  *)
 (*   res    "some" | "none" | "panic" | "nonfinite"                        *)
 (*   r      the returned point times Q, rounded to the nearest integer     *)
-(*          and clipped to -8192 .. 24576 (the scaled universe is          *)
-(*          0 .. 16384, so a clipped point stays outside the bounding box  *)
-(*          of g on the same side)                                         *)
+(*          and clipped to -8192 .. 24576 (coordinates are 0 .. 9, the     *)
+(*          scaled universe is 0 .. 18432, so a clipped point stays        *)
+(*          outside the bounding box of g on the same side; all products   *)
+(*          stay below 2^31)                                               *)
 (*   exact  TRUE iff the returned point times Q is an integer, i.e. r / Q  *)
 (*          IS the returned point                                          *)
 (*   valid  flag of the generator: g is a valid geometry (simple rings     *)
